@@ -9,9 +9,9 @@ not accept a scalar at all.
 Tolerances (relative to the scalar value): 1e-12 for float64 / int64 / int32 input, 1e-5 for float32 input
 (measured on the clean code: <= 7e-15 resp. <= 3.7e-7).
 
-Length-0 arrays: require no exception and an empty floating result.  Unsupported on the clean code and therefore
-excluded from the family (not a violation): Fluid.oil_viscosity (np.vectorize without otypes raises ValueError
-on size-0 input)."""
+Length-0 arrays: require no exception and an empty floating result, for every function of the family (an earlier
+version of this harness excluded Fluid.oil_viscosity because np.vectorize without otypes raised ValueError on size-0
+input: that was a genuine defect of the code, repaired by a fix: commit, not a reason to narrow the family)."""
 from __future__ import annotations
 
 import random
@@ -23,7 +23,7 @@ from .common import Bounded
 
 TOL = {"float64": 1e-12, "int64": 1e-12, "int32": 1e-12, "float32": 1e-5}
 DTYPES = ("float64", "float32", "int64", "int32")
-UNSUPPORTED_EMPTY = {"Fluid.oil_viscosity"}
+UNSUPPORTED_EMPTY = set()
 GAS_FUNCS = {"Fluid.gas_FVF", "Fluid.gas_viscosity"}
 ABOVE_ONLY = {"oil_compressibility_undersat_Spivey"}
 FUNCS = ("b_o_Standing", "solution_gor_Standing", "oil_compressibility_undersat_Spivey", "b_water_McCain", "b_water_McCain_dp", "compressibility_water_McCain",
@@ -185,7 +185,7 @@ def run(ctx):
                 "water_FVF/water_viscosity/gas_FVF/gas_viscosity) x %d fluid parameter sets (2 fixed + seeded T 100..300, API 20..50, gas gravity 0.6..1.1, GOR 100..2000, python int and float "
                 "T/GOR, salinity 0..20) x dtypes float64/float32/int64/int32 x arrays {n = 11 mixed both sides of / next to / exactly at the bubble point (exact only for float64; float32(pb), floor/ceil(pb) "
                 "otherwise), its views [::2], [::-1], [1::3], arange(500, 5000, 500), three length-1 arrays, length 0 and a length-0 view}; pressures 15..30000 psia (gas: <= 9000); tolerance 1e-12 relative "
-                "(1e-5 for float32); length 0 unsupported on the clean code and excluded: %s" % (len(FUNCS), nsets, ", ".join(sorted(UNSUPPORTED_EMPTY))))
+                "(1e-5 for float32); length 0 excluded for: %s" % (len(FUNCS), nsets, ", ".join(sorted(UNSUPPORTED_EMPTY)) or "nothing"))
     for P in param_sets(rng, nsets):
         for name in FUNCS:
             for dtype in DTYPES:
